@@ -19,7 +19,27 @@ LEDGER_RULE = ("ledger stream: one evaluation = one line: an accepted account bl
                "every token's supply/max/flags, number of unreceived sends); monitors: conservation sum at every momentum and "
                "every pool state, pending sets, at-most-once receive, inbox FIFO, exact refund; distinct = distinct lines")
 
+CONTRACT_RULE = ("contract stream: one evaluation = one line: a contract receive of a generated history on a real node (decoded call, "
+                 "sender, amount/token, the frontier momentum it saw, observed status and descendant sends) replayed through the "
+                 "Lean state machine of that contract which predicts status and payouts, or a storage / balance query after a "
+                 "momentum (every entry read through the definition.* getters, per-contract digests, balances) answered from the "
+                 "model state; calls are built by contract-specific generators (valid, wrong owner, too early / exactly at / just "
+                 "after maturity, repeated, unknown id, wrong token/amount/duration); five histories in six run with shortened lock "
+                 "periods (the constants are package variables), one in six with the production values; monitors: Σ recorded "
+                 "liabilities <= balance per contract and token at every momentum, every payout goes to the entitled party with the "
+                 "locked amount not before maturity and never twice, matured withdrawals are not refused, refunds exact; "
+                 "distinct = distinct lines")
+
 PROPS = {
+    "C10": {
+        "module": "ZenonVerif.Props.C10",
+        "streams": [S("contract", 60, 1500)],
+        "rule": CONTRACT_RULE,
+        "partial": "reward updates (Update / CollectReward) are outside the liability sums and enter the replay as observed "
+                   "outcomes; liquidity and bridge are not modelled",
+        "assumptions": ["send-block hashes are collision-free (fresh ids)", "every amount is below 2^256 (token max supply is 2^255-1)",
+                        "timestamps and heights stay below 2^62 (no int64/uint64 wrap-around)"],
+    },
     "C01": {
         "module": "ZenonVerif.Props.C01",
         "streams": [S("ledger", 60, 3000)],
